@@ -3,6 +3,7 @@ package vk
 import (
 	"fmt"
 	"sort"
+	"strings"
 	"sync"
 	"time"
 )
@@ -76,7 +77,8 @@ func (s *Storage) Set(key string, val []byte, exp time.Duration) error {
 			}
 			e.exp = Now() + secs
 		}
-		s.m[key] = e
+		// fiber hands out strings that alias request buffers; a map-based storage has to own its keys
+		s.m[strings.Clone(key)] = e
 	}
 	s.log("set %s %d bytes ttl=%v fail=%v", key, len(val), exp, fail)
 	s.mu.Unlock()
